@@ -183,7 +183,7 @@ def body(case, stats):
 def worker(widx, seed, tier, stats):
     n = {'quick': 200, 'thorough': 6000}[tier]
     avoid = common.avoid_set(ID)
-    opts = gen.GenOpts(avoid=avoid, allow_unset=False, big_sizes=False, aligned_greedy=False)
+    opts = gen.GenOpts(avoid=avoid, allow_unset=True, unset_bias=(3, 6), big_sizes=False, aligned_greedy=False)
     runner.run_given(cases(opts), body, seed, n, stats)
 
 
